@@ -2407,14 +2407,15 @@ def poison_probe(ctx: Ctx):
                 now = rd()
             except Exception as ex:
                 ctx.fail(case | {"read_type": nm, "read_dtype": dt_},
-                         f"poison: after {what} the C05 operations on a batch of 3 {nm} items ({dt_}) raise {type(ex).__name__}: {str(ex)[:120]}")
+                         f"poison: the C05 operations on a batch of 3 {nm} items ({dt_}) raise {type(ex).__name__}: {str(ex)[:120]} — they did not at "
+                         f"their first evaluation in this process; in between: {what}")
                 return False
             for k2, v in now.items():
                 if not _same(v, first[(nm, dt_)][k2]):
                     d = float((v.double() - first[(nm, dt_)][k2].double()).abs().max()) if v.shape == first[(nm, dt_)][k2].shape else float("nan")
                     ctx.fail(case | {"read": k2, "read_type": nm, "read_dtype": dt_},
-                             f"poison: after {what}, {k2} on the SAME batch of {nm} items ({dt_}) differs from its first evaluation in this process "
-                             f"(max diff {d:.3e}) — state shared across calls")
+                             f"poison: {k2} on the SAME batch of 3 {nm} items ({dt_}) differs from its first evaluation in this process (max diff {d:.3e}) "
+                             f"— state shared across calls; in between: {what}")
                     return False
         return True
     for (name, dtype), ops in ops_by.items():
@@ -2685,6 +2686,9 @@ def run(ctx: Ctx):
         return r
     torch.set_num_threads(1)     # single intra-op thread: several threads are ~30x slower on small ops when the box is busy
     poison_probe(ctx)
+    if ctx.failures:      # process-wide state is corrupted: every later comparison in this process would be against poisoned constants
+        ctx.count("poison.stopped-after-poison")
+        return
     mode_order_probe(ctx)
     _UL.persistent_probe(ctx, _reads)
     history_probe(ctx)
